@@ -61,7 +61,11 @@ func (i *interpreter) runnableThreads() []*thread {
 }
 
 // yield is a scheduling point.
-func (i *interpreter) yield() {
+func (i *interpreter) yield() { i.yieldAt(false) }
+
+// yieldAt is a scheduling point; an explicit one (verifYield) is not subject to the
+// preemption bound.
+func (i *interpreter) yieldAt(explicit bool) {
 	if len(i.threads) <= 1 {
 		return
 	}
@@ -72,7 +76,7 @@ func (i *interpreter) yield() {
 		}
 		return
 	}
-	if i.h != nil && i.h.MaxSwitches >= 0 && i.switches >= i.h.MaxSwitches && rs[0] == i.cur {
+	if !explicit && i.h != nil && i.h.MaxSwitches >= 0 && i.switches >= i.h.MaxSwitches && rs[0] == i.cur {
 		return
 	}
 	k := i.choice(len(rs))
